@@ -812,6 +812,157 @@ Lemma forced_fixed_example :
      ObsReq (Use V1) []].
 Proof. vm_compute. reflexivity. Qed.
 
+(* ---------- repaired EnableH2C: no reachable client has a plain dialler in the DialTLSContext slot ---------- *)
+Lemma gen_h2c_repaired : h2c_installs_plain_dialtls = false /\ h2_plain_dial_for_http = true.
+Proof. split; reflexivity. Qed.
+
+Lemma rt_h3_fresh_plain e c : c_plain_dialtls (snd (rt_h3_fresh e c)) = c_plain_dialtls c.
+Proof.
+  unfold rt_h3_fresh. destruct (h3_dial e c) as [h d]. destruct h as [p|er]; [reflexivity|]. destruct er; reflexivity.
+Qed.
+
+Lemma rt_h3_plain oc e c r : rt_h3 oc e c = Some r -> c_plain_dialtls (snd r) = c_plain_dialtls c.
+Proof.
+  unfold rt_h3. destruct (negb (e_https e)); [intros H; inversion H; reflexivity|].
+  destruct (c_t3 c); try (intros H; inversion H; reflexivity).
+  - destruct oc; [discriminate|]. intros H; inversion H. apply rt_h3_fresh_plain.
+  - destruct oc; intros H; inversion H; [reflexivity|]. rewrite rt_h3_fresh_plain. reflexivity.
+Qed.
+
+Lemma rt_h2_dial_client e c : snd (rt_h2_dial e c) = c \/ snd (rt_h2_dial e c) = with_t2 true c.
+Proof.
+  unfold rt_h2_dial.
+  repeat match goal with
+         | |- context [if ?b then _ else _] => destruct b
+         | |- context [match ?x with _ => _ end] => destruct x
+         end; cbn [snd]; auto.
+Qed.
+
+Lemma rt_h2_dial_plain e c : c_plain_dialtls (snd (rt_h2_dial e c)) = c_plain_dialtls c.
+Proof. destruct (rt_h2_dial_client e c) as [H|H]; rewrite H; reflexivity. Qed.
+
+Lemma rt_conn_client e c :
+  snd (rt_conn e c) = c \/ snd (rt_conn e c) = with_t2 true c \/
+  snd (rt_conn e c) = with_idle (c_idle c) true c \/ snd (rt_conn e c) = with_idle true (c_idle1 c) c.
+Proof.
+  unfold rt_conn.
+  repeat match goal with
+         | |- context [if ?b then _ else _] => destruct b
+         | |- context [match ?x with _ => _ end] => destruct x
+         end; cbn [snd]; auto.
+Qed.
+
+Lemma rt_conn_plain e c : c_plain_dialtls (snd (rt_conn e c)) = c_plain_dialtls c.
+Proof. destruct (rt_conn_client e c) as [H|[H|[H|H]]]; rewrite H; reflexivity. Qed.
+
+Lemma check_altsvc_plain_dialtls e c r : check_altsvc e c = Some r -> c_plain_dialtls (snd r) = c_plain_dialtls c.
+Proof.
+  unfold check_altsvc. destruct (negb (c_h3 c)); [discriminate|].
+  destruct (c_alt c) as [|[|]|]; try discriminate.
+  - destruct (rt_h3 false e c) as [[[o ds] c']|] eqn:E; [|discriminate].
+    apply rt_h3_plain in E. cbn in E.
+    destruct o as [v| |er]; intros H; inversion H; cbn; exact E.
+  - apply rt_h3_plain.
+Qed.
+
+Lemma round_trip_plain g e c : c_plain_dialtls (snd (round_trip_gen g e c)) = c_plain_dialtls c.
+Proof.
+  unfold round_trip_gen.
+  destruct (if g && negb match c_force c with FNone => true | _ => false end then None else check_altsvc e c) eqn:A.
+  - destruct (g && negb match c_force c with FNone => true | _ => false end); [discriminate|].
+    eapply check_altsvc_plain_dialtls; eauto.
+  - destruct (c_force c).
+    + destruct (e_https e && negb false).
+      * destruct (c_t2 c); [reflexivity|]. destruct (c_h3 c); [|apply rt_conn_plain].
+        destruct (rt_h3 true e c) eqn:E; [eapply rt_h3_plain; eauto | apply rt_conn_plain].
+      * apply rt_conn_plain.
+    + destruct (e_https e && negb true); [|apply rt_conn_plain].
+      destruct (c_t2 c); [reflexivity|]. destruct (c_h3 c); [|apply rt_conn_plain].
+      destruct (rt_h3 true e c) eqn:E; [eapply rt_h3_plain; eauto | apply rt_conn_plain].
+    + apply rt_h2_dial_plain.
+    + destruct (rt_h3 false e c) eqn:E; [eapply rt_h3_plain; eauto | reflexivity].
+Qed.
+
+Lemma after_response_plain e r : c_plain_dialtls (snd (after_response e r)) = c_plain_dialtls (snd r).
+Proof.
+  destruct r as [[o ds] c]. unfold after_response.
+  destruct o as [[| |]| |]; try reflexivity;
+    (destruct (c_h3 c && s_altsvc (e_srv e)); [destruct (c_alt c)|]; reflexivity).
+Qed.
+
+Lemma do_req_plain g e c : c_plain_dialtls (snd (do_req_gen g e c)) = c_plain_dialtls c.
+Proof. unfold do_req_gen. rewrite after_response_plain. apply round_trip_plain. Qed.
+
+Lemma do_bg_plain e c : c_plain_dialtls (snd (do_bg e c)) = c_plain_dialtls c.
+Proof.
+  unfold do_bg. destruct (negb (c_bg c)); [reflexivity|].
+  destruct (c_t3 c); try reflexivity.
+  destruct (h3_dial e c) as [h d]. destruct h as [p|er]; [reflexivity|].
+  destruct er; try reflexivity. destruct (verify_ok _ _); reflexivity.
+Qed.
+
+Lemma step_plain g e c o : c_plain_dialtls c = false -> c_plain_dialtls (snd (step_gen g e c o)) = false.
+Proof.
+  intros P. destruct o; cbn [step_gen snd].
+  all: try (unfold set_h2c; rewrite (proj1 gen_h2c_repaired)).
+  all: try (cbn; exact P); try reflexivity.
+  all: try (destruct f; cbn; exact P).
+  all: try (cbn; destruct closeidle_closes_h3; cbn; exact P).
+  all: try (pose proof (do_bg_plain e c) as H; destruct (do_bg e c) as [ds c']; cbn [snd] in *; rewrite H; exact P).
+  all: try (pose proof (do_req_plain g e c) as H; destruct (do_req_gen g e c) as [[o ds] c']; cbn [snd] in *; rewrite H; exact P).
+  destruct (do_req_gen g e (fork_apply a (do_clone c))) as [[o ds] c2]. destruct (do_bg e c2) as [ds2 c3]. exact P.
+Qed.
+
+Lemma run_plain g e ops : forall c, c_plain_dialtls c = false -> c_plain_dialtls (snd (run_gen g e c ops)) = false.
+Proof.
+  induction ops as [|o r IH]; intros c P; [exact P|].
+  cbn [run_gen]. pose proof (step_plain g e c o P) as H. destruct (step_gen g e c o) as [x c1]. cbn [snd] in H.
+  specialize (IH c1 H). destruct (run_gen g e c1 r) as [xs c2]. exact IH.
+Qed.
+
+Lemma reachable_no_plain e c : reachable e c -> c_plain_dialtls c = false.
+Proof. intros [ops ->]. unfold run. apply run_plain. reflexivity. Qed.
+
+Lemma round_trip_cleartext g e c : outcome_of (round_trip_gen g e c) = Cleartext -> c_plain_dialtls c = true.
+Proof.
+  unfold round_trip_gen.
+  assert (H3 : forall oc r, rt_h3 oc e c = Some r -> outcome_of r <> Cleartext).
+  { intros oc r E. destruct (rt_h3_outcome _ _ _ _ E) as [K|[er K]]; rewrite K; discriminate. }
+  assert (HC : outcome_of (rt_conn e c) = Cleartext -> c_plain_dialtls c = true).
+  { intros K. pose proof (rt_conn_outcome e c) as O. rewrite K in O. apply O. }
+  destruct (if g && negb match c_force c with FNone => true | _ => false end then None else check_altsvc e c) as [r|] eqn:A.
+  - destruct (g && negb match c_force c with FNone => true | _ => false end); [discriminate|].
+    intros K. exfalso. unfold check_altsvc in A. destruct (negb (c_h3 c)); [discriminate|].
+    destruct (c_alt c) as [|[|]|]; try discriminate.
+    + destruct (rt_h3 false e c) as [[[o ds] c']|] eqn:E; [|discriminate].
+      pose proof (H3 _ _ E) as N. unfold outcome_of in N, K. cbn in N.
+      destruct o as [v| |er]; inversion A; subst; cbn in K; congruence.
+    + exact (H3 _ _ A K).
+  - destruct (c_force c).
+    + destruct (e_https e && negb false); [|exact HC]. destruct (c_t2 c); [discriminate|].
+      destruct (c_h3 c); [|exact HC].
+      destruct (rt_h3 true e c) eqn:E; [intros K; exfalso; exact (H3 _ _ E K) | exact HC].
+    + destruct (e_https e && negb true); [|exact HC]. destruct (c_t2 c); [discriminate|].
+      destruct (c_h3 c); [|exact HC].
+      destruct (rt_h3 true e c) eqn:E; [intros K; exfalso; exact (H3 _ _ E K) | exact HC].
+    + intros K. destruct (rt_h2_dial_outcome e c) as [X|[er X]]; rewrite X in K; discriminate.
+    + destruct (rt_h3 false e c) eqn:E; [intros K; exfalso; exact (H3 _ _ E K) | discriminate].
+Qed.
+
+(* an https request of a reachable client is never written in clear (and a plain-http one is not "clear text" in
+   this sense by definition): whatever EnableH2C / DisableH2C / SetDialTLS / Clone sequence preceded *)
+Lemma never_in_clear e c : reachable e c -> outcome_of (do_req e c) <> Cleartext.
+Proof.
+  intros R K. unfold do_req, do_req_gen in K. rewrite after_response_outcome in K.
+  apply round_trip_cleartext in K. rewrite (reachable_no_plain e c R) in K. discriminate.
+Qed.
+
+(* the pinned EnableH2C left the client in a state with the plain dialler installed: there the https request goes
+   out in clear, whatever the TLS settings *)
+Lemma h2c_pinned_refuted :
+  outcome_of (do_req local_env (with_h2c true true (mutate (add_root 1%N) new_client))) = Cleartext.
+Proof. vm_compute. reflexivity. Qed.
+
 (* ---------- a throw-away clone never changes the original ---------- *)
 Lemma fork_leaves_original g e c a : snd (step_gen g e c (OFork a)) = c.
 Proof.
